@@ -240,6 +240,7 @@ func (hc *httpCache) initFromStore() (err error) {
 // markRemoved mark the cache as removed(purged) from dispatcher,
 // a removed cache will not be saved to store
 func (hc *httpCache) markRemoved() {
+	verifPoint("purge.fence", hc)
 	hc.mu.Lock()
 	defer hc.mu.Unlock()
 	hc.removed = true
